@@ -155,3 +155,6 @@ OUTSIDE = ["input scaffolds that begin or end with a gap row (C07 requires such 
            "scaffold ends shown short by a whole ceil(t) bases because PretextView truncates n*t to an integer (DESIGN section 4: outside C08's hypothesis as read)"]
 TRUSTED = ["CrossHair/z3", "integer abstraction of the PretextView texel grid (DESIGN section 4)", "Fragment.key_tuple replaced by (name, id) in the analysis (identity of the input Fragment objects)",
            "loader cuts: logging, message text, format specs, math.floor shim"]
+
+TECHNIQUE = ("symbolic execution of the real remapping pipeline (CrossHair + z3) on unedited maps: all lengths, end roundings, texel sizes, strands and presence flags symbolic")
+LEVEL_TEXT = ("The unedited-map identity is decided for all sizes/roundings/texels of each template rather than for sampled ones.")
